@@ -109,7 +109,7 @@ type OptionsConfig struct {
 	ProviderSlug          string            `yaml:"provider_slug"`
 
 	// CookieName is still set globally, so we do not provide override behavior
-	CookieName string
+	CookieName string `yaml:"-"`
 }
 
 // ErrParsingConfig is an error specific to config parsing.
